@@ -129,7 +129,7 @@ def run_case(case: Dict[str, Any], ctx) -> None:
             for (b, r, tag), fr in zip(zip(bs, rs, "ABC"), (A, B, C)):
                 # the reference gradient is identically zero (e.g. attention over a single key: softmax' = 0). "Zero" is judged at
                 # rounding level relative to the largest gradient this call produced: p * (g - sum(p * g)) need not cancel exactly
-                big = max([float(t.abs().max()) for t in fr.grads_u.values() if t is not None and t.numel()] + [0.0])
+                big = max([float(t.abs().max()) for t in fr.grads_u.values() if t is not None and t.numel()] + [fr.upstream_max * fr.input_max])
                 if b is None and r > 64 * _EPS[case["dtype"]] * big:
                     ctx.violation(key(f"nonzero-grad-where-reference-zero:{name}"), f"draw {tag}: max|grad|={r}", cfg=cfg)
             continue
